@@ -50,7 +50,10 @@ TFinal ==
          stuck == {c \in C : c.reply = "timeout"}
          \* a stuck call whose API call (t0 .. tc, real time) overlaps the interval between the daemon's last look at its
          \* queue and the end of its thread may be the known window; any other is not
-         inWindow(c) == Ev.drained_us >= 0 /\ c.tc >= Ev.drained_us /\ (Ev.dead_us < 0 \/ c.t0 <= Ev.dead_us)
+         \* (drain_us: taken just before the daemon began to empty its queue - whatever was queued before it is certainly taken out;
+         \* the instant of its last look lies between drain_us and drained_us)
+         inWindow(c) == Ev.drain_us >= 0 /\ c.tc >= Ev.drain_us /\ (Ev.dead_us < 0 \/ c.t0 <= Ev.dead_us)
+         maker(ch) == {c \in C : c.s0 = ch.by}
          exits == {c \in C : c.fn = "shutdown" /\ c.reply = "Shutdown"}
          allCh == Range(chans) \cup Range(Ev.warm)
          searchCh == {c \in allCh : c.fn \in {"browse", "resolve_hostname"}}
@@ -63,7 +66,11 @@ TFinal ==
                             <<IF inWindow(c)
                               THEN "a command sent between the daemon's last look at its queue and the drop of the receiver stays in the channel: its reply channel is never answered nor closed"
                               ELSE "a reply channel is neither answered nor closed", c.fn, c.s0>>) : c \in stuck}
-              \cup UNION {V("C14.hang", c.closed, <<"an event channel is still open after the daemon thread has ended", c.fn>>) : c \in allCh}
+              \cup UNION {V("C14.hang", c.closed, <<"an event channel is still open after the daemon thread has ended", c.fn>>) : c \in Range(Ev.warm)}
+              \cup UNION {V("C14.hang", c.closed,
+                            <<IF \E m \in maker(c) : inWindow(m)
+                              THEN "a command sent between the daemon's last look at its queue and the drop of the receiver stays in the channel: its event channel is never closed"
+                              ELSE "an event channel is still open after the daemon thread has ended", c.fn>>) : c \in Range(chans)}
               \cup UNION {V("C14.final-after", c.res = "DaemonShutdown" \/ (c.fn = "status" /\ c.res = "ok" /\ c.reply = "Shutdown"),
                             <<"a call that started after Shutdown had been received did not fail with DaemonShutdown", c.fn, c.res, c.reply, c.s0, firstSeen>>) : c \in late}
               \cup V("C14.once", Cardinality(exits) <= 1, <<"more than one shutdown() was answered Shutdown", Cardinality(exits)>>)
